@@ -277,6 +277,20 @@ func tblKey(r *rand.Rand, width int) []byte {
 		}
 		return b
 	}
+	if r.Intn(14) == 0 {
+		// a marker lookalike followed by bytes that make the trial parse of a "record" at that position fail in one
+		// particular way: overlong varint, wrong magic continuation, wrong checksum, a header cut by the end of the key
+		tails := [][]byte{
+			{0x00, 0xff, 0xff, 0xff, 0xff, 0xff, 0xff, 0xff, 0xff, 0xff, 0xff, 0x01},
+			{0x01, 0x80, 0x80, 0x80, 0x80, 0x80, 0x80, 0x80, 0x80, 0x80, 0x80, 0x80},
+			{0x00, 0x05, 0x00, 0x01, 0x02, 0x03},
+			{0x00, 0x85},
+			{0x02, 0x00, 0x00, 0x00},
+		}
+		k := []byte{byte('a' + r.Intn(3))}
+		k = append(k, 0x91, 0x8d, 0x4c)
+		return append(k, tails[r.Intn(len(tails))]...)
+	}
 	n := r.Intn(5)
 	switch r.Intn(12) {
 	case 0:
